@@ -200,26 +200,29 @@ PROPS = {
         "level_note": "Sequentially consistent interleavings only. 'Pool threads running jobs at once' is observed through the jobs themselves (a gauge incremented at job start), not through thread counts.",
     },
     "C06": {
-        "title": "Descriptors are closed exactly once, never in use, never leaked (cross-thread handle half; the in-flight-operation and descriptor-producing-operation halves need Engine K)",
+        "title": "Shared descriptors are closed exactly once, only after the last use",
         "engine": "T",
         "package": "check-t",
         "bin": "check-t",
-        "design_ref": "§5, §7 C06 (T part)",
-        "technique": "deterministic simulation: the real SharedFd (feature sync, hook H6) shared by 1-3 holder threads and one or two awaiting take() calls on shuttle coroutines with decider-driven context switches; instrumented owned descriptor (close counter, in-use probe), hang classification at quiescence, deadlock oracle; choice-sequence minimisation and replay",
+        "share": 1,
+        "more_parts": [{"engine": "K", "package": "check-k", "bin": "check-k", "share": 1}],
+        "design_ref": "§5, §4, §7 C06",
+        "technique": "deterministic simulation, two engines. T: the real SharedFd (feature sync, hook H6) shared by 1-3 holder threads and one or two awaiting take() calls on shuttle coroutines with decider-driven context switches; instrumented owned descriptor (close counter, in-use probe), hang classification at quiescence, deadlock and pending-as-sole-owner oracles. K: the abandon/teardown scenario of C01 on the simulated io_uring kernel and the polling driver (accept, open, socket and pipe producing descriptors while drop / token / timeout cancellation or the drop of the whole runtime lands around their completion; explicit close().await of files and accepted sockets; close() interposed to catch a descriptor closed under a pending operation; descriptor table compared before and after). Choice-sequence minimisation and replay in both",
         "tiers": {
             "quick": {"runs": 200_000, "time_limit_s": 60},
             "thorough": {"runs": 30_000_000, "time_limit_s": 1500},
         },
-        "rule": T_RULE,
-        "real": ["compio-driver::fd (SharedFd::new/clone/drop/take/try_unwrap) with features `sync` and `verif`", "synchrony sync::{shared::Shared = Arc, atomic, waker_slot = futures AtomicWaker} (unmodified; atomic between hook points)"],
-        "stub": T_STUB,
+        "rule": T_RULE + " Engine K runs (half of the workers): " + K_RULE,
+        "real": ["compio-driver::fd (SharedFd::new/clone/drop/take/try_unwrap) with features `sync` and `verif`", "synchrony sync::{shared::Shared = Arc, atomic, waker_slot = futures AtomicWaker} (unmodified; atomic between hook points)"] + K_REAL,
+        "stub": T_STUB + K_STUB,
         "assumptions": T_ASSUME + [
             "scheduling points sit at the hook sites inside SharedFd::take and SharedFd::drop (before the count check, before the wake, and between the wake and the implicit release of the reference); Arc clone/drop elsewhere are atomic",
-            "only the handle-sharing half of C06 is decided here: 'never closed while an operation is in flight' and 'descriptors produced by cancelled operations are closed or delivered' need the simulated kernel",
-        ],
+            "the cross-thread handle half is decided on Engine T, 'never closed while an operation is in flight' and 'descriptors produced by operations are delivered or closed' on Engine K (see C01's assumptions for its ledger)",
+        ] + K_ASSUME,
         "level_text": ("Seeded exploration of interleavings of clone / drop on holder threads with a take().await (and a competing second take()): the owned descriptor is dropped exactly once, not before every other handle has begun to let go, "
-                       "take() resolves once the last other handle is gone (a wait that can never end is reported with the facts that identify it), a losing take() yields None."),
-        "level_note": "Partial claim (cross-thread handle sharing). One open known finding: the wake precedes the release in SharedFd::drop.",
+                       "take() resolves once the last other handle is gone (a wait that can never end is reported with the facts that identify it), a losing take() yields None. On Engine K: no descriptor is closed while an operation on it is pending in the ring, "
+                       "and after programs that cancel or tear down accept / open / socket / pipe operations around their completion the descriptor table is back to what it was."),
+        "level_note": "Two open known findings: the wake precedes the release in SharedFd::drop (T); a Close request still unsubmitted or queued when the runtime is dropped never runs (K).",
     },
     "C14": {
         "title": "Socket transports deliver exactly what was sent (byte streams over pipes, Unix stream sockets and loopback TCP; datagram and accept-once parts: see level_note)",
@@ -242,6 +245,31 @@ PROPS = {
         "level_text": ("Seeded exploration of kernel behaviours under 1-3 concurrent channels (pipe / Unix stream / loopback TCP) with write, write_vectored, zero-copy write against read, read_vectored, managed read and multishot read: "
                        "the receiver's byte sequence equals the sender's and is followed by end of stream after shutdown; submitted buffers come back identical; nothing is left pending; no ring leaks."),
         "level_note": "Stream half of C14. Datagram sockets (truncation, source address, MSG_TRUNC flag) and accept-exactly-once are not exercised by this check yet. The simulated kernel's fidelity is checked by running compio's own 217 tests on it (tools/fidelity.sh): all pass.",
+    },
+    "C01": {
+        "title": "In-flight operations keep their memory and descriptors alive",
+        "engine": "K",
+        "package": "check-k",
+        "bin": "check-k",
+        "design_ref": "§4, §7 C01",
+        "technique": "deterministic simulation with fault injection and a memory/descriptor ledger: the real runtime and drivers on the simulated io_uring kernel; generated actors start receive / vectored receive / pipe read / multishot and managed receive / zero-copy send / accept / positional file I/O / open / blocking-pool operations with instrumented buffers and abandon them by a generated route (task drop, cancel token, timeout, nothing) at a generated instant while the awaited event comes at a generated instant or never, and the whole runtime may be dropped at a generated instant with everything in flight; the simulated kernel registers with the process's allocator every user memory range a pending operation may still touch (and the provided-buffer ring), so a free or move of such memory is reported when it happens, freed blocks are quarantined and checksummed (write-after-free), close() is interposed (descriptor closed under a pending operation), the descriptor table is compared before/after, instrumented buffers count their drops, and a zero-copy send's buffer may come back only after the kernel's notification; choice-sequence minimisation and replay; process crashes reported with a from-seed replay",
+        "tiers": {
+            "quick": {"runs": 250_000, "time_limit_s": 60},
+            "thorough": {"runs": 60_000_000, "time_limit_s": 1500},
+        },
+        "rule": K_RULE,
+        "real": K_REAL,
+        "stub": K_STUB,
+        "assumptions": K_ASSUME + [
+            "memory the kernel copies when it consumes the SQE (iovec arrays, paths, socket addresses of connect/bind, time specs) is not watched; data buffers, receive message headers with their name/control buffers, accept address buffers, statx buffers, pipe descriptor pairs and the provided-buffer ring are",
+            "a watch ends when the final completion of the operation is posted (for zero-copy sends: the notification) or when its ring is closed",
+            "the descriptor ledger compares /proc/self/fd before and after the run; instrumented buffers are Vec-backed and must be dropped exactly once by the time the runtime is gone",
+            "blocking-pool jobs run inline (virtual pool); jobs still queued when the runtime is dropped run afterwards, as pool threads would",
+            "on polling-driver runs only the descriptor, buffer-drop and write-after-free oracles apply (nothing is pending in a kernel ring)",
+        ],
+        "level_text": ("Seeded exploration of abandon/teardown programs: no memory range of a pending operation is freed or moved before its final completion or the closing of its ring, no descriptor is closed under a pending operation, no freed block is written to, "
+                       "every descriptor opened by the program or produced by an operation is closed by the time the runtime is gone, every buffer handed to an operation is dropped exactly once, and a zero-copy send returns its buffer only after the notification."),
+        "level_note": "Also run under C06 for the descriptor half. UDP / sendmsg control data and connect are not among the actors.",
     },
     "C05": {
         "title": "Cancellation is prompt, honest and local",
